@@ -284,3 +284,14 @@ where
         self.kktsolver.update_A(A);
     }
 }
+
+#[cfg(feature = "verif")]
+impl<T> DefaultKKTSystem<T>
+where
+    T: FloatT,
+{
+    /// read-only copy of the assembled KKT system (verification hook)
+    pub fn verif_snapshot(&self) -> Option<crate::verif_hooks::KktSnapshot<T>> {
+        self.kktsolver.verif_snapshot()
+    }
+}
